@@ -51,10 +51,12 @@ def run_simple(pid, tier, plan, replay=None):
         violations, knowns, observations = [], {}, {}
         bad = {}
         infra = re.compile(plan["infra"]) if plan.get("infra") else None
+        infra_hits = []
         for label, trace, verdicts, gen, n in results:
             for sid, line, clause in verdicts:
                 if infra and infra.match(clause):
-                    raise Infra("the model and the observation channel disagree (%s at line %d of %s): not a verdict" % (clause, line, trace))
+                    infra_hits.append((clause, line, trace))
+                    continue
                 if own.match(clause):
                     if clause in known:
                         knowns[clause] = knowns.get(clause, 0) + 1
@@ -63,6 +65,9 @@ def run_simple(pid, tier, plan, replay=None):
                         bad.setdefault((trace, line), set()).add(clause)
                 else:
                     observations[clause] = observations.get(clause, 0) + 1
+        if infra_hits and not violations:
+            # a disagreement between the model's prediction and the observation channel, with no violation to explain it
+            raise Infra("the model and the observation channel disagree (%s at line %d of %s): not a verdict" % infra_hits[0])
         # distinct non-trivial cases and samples
         distinct, samples, byop = set(), [], {}
         strip = plan.get("result_keys", ())
